@@ -467,7 +467,8 @@ pub fn run_point(root: &Path, p: &Point) -> PointResult {
         writer: p.writer.map(|(k, _)| dirspec("W", k)),
         readers: p.readers.iter().enumerate().map(|(i, (k, _))| dirspec(&level_name(i), *k)).collect(),
         checker: p.checker,
-        auto_sync: true,
+        // a third of the points disable auto_sync: everything but the flush must stay the same
+        auto_sync: hash_str(&format!("{:?}", p)) % 3 != 0,
     };
     let pop_c = match p.pop {
         'A' | 'B' | 'C' => p.pop,
